@@ -123,6 +123,8 @@ pub enum Command {
     target_endpoint_uri: String,
     connection_iface: Arc<dyn ISocketConnection>,
     peer_identity: Option<Blob>,
+    /// Socket type the peer announced in its READY command (or ZMTP/2.0 greeting).
+    peer_socket_type: Option<String>,
     /// Raw file descriptor for this connection — used to route `AttachIngressSender`
     /// to the correct worker handler.
     fd: RawFd,
